@@ -221,7 +221,7 @@ class Ctx:
         info = {"events": n, "error": res.error[:4000], "unmatched": None}
         for tag, body in res.prints:
             if tag == "UNMATCHED":
-                info["unmatched"] = body[:4000]
+                info["unmatched"] = body
         if info["unmatched"] is None and ("Attempted to" in res.error or "unexpected exception" in res.error):
             # An evaluation error while matching an event (typically comparing values of
             # different shapes, i.e. the recorded event does not even have the shape the
